@@ -1,6 +1,6 @@
 import Qats.Model.Dist
 import Qats.Lemmas.RealOps
-import Qats.Lemmas.SNOps
+import Qats.Lemmas.RealOpsSimp
 import Mathlib.Tactic
 /-!
 Bridging lemmas for the estimator formulas: the generated formulas (`Qats.Gen.wb_pwm_*`, `wb_pwm2_*`, `gu_pwm_*`,
@@ -9,9 +9,7 @@ Bridging lemmas for the estimator formulas: the generated formulas (`Qats.Gen.wb
 syntactic shape of the generated formulas; each proof is "unfold, normalise literals, normalise ring structure".
 -/
 namespace Qats.Est
-open Qats Qats.Gen Qats.SN
-
-@[simp] theorem pi_real : (TranscOps.pi : ℝ) = Real.pi := rfl
+open Qats Qats.Gen
 
 /-- The Euler–Mascheroni literal of the generated formulas, kept opaque. -/
 noncomputable def emc : ℝ := (0.5772156649015329 : ℝ)
